@@ -7,7 +7,7 @@
 (* overlong form, no encoded surrogate, nothing above U+10FFFF), and the    *)
 (* error offset is the lead byte of the first ill-formed sequence.          *)
 (***************************************************************************)
-EXTENDS Utf8, TLC, Json
+EXTENDS Utf8, JsonGrammar, TLC, Json
 
 CONSTANTS Alphabet, MaxLen, Prefix, Suffix, OptSet
 
@@ -27,4 +27,12 @@ DecoderIsTable37 ==
   /\ d.bad # -1 => /\ d.bad < Len(Bytes)
                    /\ WellFormedAs(SubSeq(Bytes, 1, d.bad), d.chars)         \* the prefix before it is well formed
                    /\ Decode(SubSeq(Bytes, 1, d.bad + 1)).bad = d.bad          \* and it starts exactly there
+
+\* C01 on byte input: accepted iff the bytes are the UTF-8 encoding of a text the declarative
+\* RFC 8259 grammar derives; the value is then that text's denotation
+BytesAcceptIffGrammar ==
+  LET d == Decode(Bytes) IN
+  (RunBytes(Bytes, o).mode = "done") <=> (WellFormedAs(Bytes, d.chars) /\ GText(d.chars, o))
+BytesValueIsDenotation ==
+  LET r == RunBytes(Bytes, o) IN r.mode = "done" => r.val = DText(Decode(Bytes).chars, o)
 =============================================================================
